@@ -641,7 +641,16 @@ def check_grammar(ast, s1, s2, regname):
         if st == "upe":
             key = ("C20[names:rejected:prefix-word+degree-sign]" if re.search(r"[A-Za-z]{3,}°", s)
                    else "C20[grammar:rejected]")
-            out.append((key, "valid unit expression %r (registry %s) was rejected" % (s, regname), ("accept", s, regname)))
+            # an expression whose value is not a finite real number (a fractional power of the
+            # negatively scaled `lat`) denotes no unit: refusing it with UnitParseError is what
+            # the statement asks for ("either succeeds or raises UnitParseError")
+            try:
+                _val, _dims = expected(ast, regname)
+                denotes_a_unit = isinstance(_val, (int, float)) and math.isfinite(_val) and _val != 0
+            except Exception:
+                denotes_a_unit = False
+            if denotes_a_unit or "names:rejected" in key:
+                out.append((key, "valid unit expression %r (registry %s) was rejected" % (s, regname), ("accept", s, regname)))
         us.append(mk(s, regname) if st == "ok" else None)
     u1, u2 = us
     if u1 is not None:
